@@ -104,6 +104,10 @@ def run(prop, tier, keep):
         return None
     objs = [p for p in glob.glob(os.path.join(HERE, "harness", "target_cov", "*", prop.lower() + "*"))
             if os.access(p, os.X_OK) and os.path.isfile(p) and not p.endswith(".d")]
+    if not objs:
+        # the property drives another property's binary (C05 uses the C04 signal runner): take every harness binary
+        objs = [p for p in glob.glob(os.path.join(HERE, "harness", "target_cov", "*", "c[0-9][0-9]*"))
+                if os.access(p, os.X_OK) and os.path.isfile(p) and not p.endswith(".d")]
     cmd = [os.path.join(TOOLS, "llvm-cov"), "export", "-format=text", "-instr-profile", prof]
     for k, o in enumerate(objs):
         cmd += ([o] if k == 0 else ["-object", o])
